@@ -106,6 +106,18 @@ static size_t fail_size = 0;
 static int fail_alloc_counter = _DBUS_INT_MAX;
 static int n_failures_per_failure = 1;
 static int n_failures_this_failure = 0;
+#ifdef FREEDESKTOP_DBUS_VERIF
+static int verif_second_failure_distance = -1;
+
+/* verification hook H2: after the next injected failure has fired, fail again
+ * `distance` allocations later (negative: do not) */
+DBUS_PRIVATE_EXPORT void _dbus_verif_set_second_failure (int distance);
+void
+_dbus_verif_set_second_failure (int distance)
+{
+  verif_second_failure_distance = distance;
+}
+#endif
 static dbus_bool_t guards = FALSE;
 static dbus_bool_t disable_mem_pools = FALSE;
 static dbus_bool_t backtrace_on_fail_alloc = FALSE;
@@ -282,6 +294,15 @@ _dbus_decrement_fail_alloc_counter (void)
             fail_alloc_counter = fail_nth;
           else
             fail_alloc_counter = _DBUS_INT_MAX;
+#ifdef FREEDESKTOP_DBUS_VERIF
+          /* verification hook H2: optionally arm one more failure, a given
+           * number of allocations after this one */
+          if (verif_second_failure_distance >= 0)
+            {
+              fail_alloc_counter = verif_second_failure_distance;
+              verif_second_failure_distance = -1;
+            }
+#endif
 
           n_failures_this_failure = 0;
 
